@@ -1,5 +1,5 @@
 (** C15 — SetByUser is true exactly for values given on the command line. *)
-From MowCli Require Import Base Matchers Apply Values Cmd ValueProofs.
+From MowCli Require Import Base Matchers Apply Values Cmd View ValueProofs AccountProofs UserProofs.
 
 (** For every declaration list, spec, environment and command line: after a successful parse of
     a command, the SetByUser flag of option (resp. argument) number k is true iff the accepting
@@ -15,6 +15,21 @@ Theorem C15_iff :
       (forall k c, nth_error args' k = Some c -> (ct_user c = true <-> values_for (KA k) bs <> [])).
 Proof. exact setbyuser_iff. Qed.
 Print Assumptions C15_iff.
+
+(** ... and, read off the command line: for a compiled command whose automaton has no spec-level "--" and a
+    command line that reads cleanly ([view]: occurrences of options with their values, positionals, the first
+    "--"), the flag of option number k is true iff option k is WRITTEN on the line — it has at least one
+    occurrence in the reading — whatever the environment and the defaults are *)
+Theorem C15_true_iff_written_on_the_line :
+  forall (parse_float : str -> option str) (getenv : str -> str)
+         (ds : list decl) (spec : str) (i : inited) (argv : list str) (opts' args' : list container) (u : list vs),
+    do_init parse_float getenv ds spec = IOk i ->
+    sane (optinfo_of (i_opts i)) = true -> no_dd_graph (i_graph i) = true ->
+    view (optinfo_of (i_opts i)) argv = Some u ->
+    fsm_parse parse_float i argv = PAccept opts' args' ->
+    forall k c, nth_error opts' k = Some c -> (ct_user c = true <-> occs k u <> []).
+Proof. exact setbyuser_iff_written. Qed.
+Print Assumptions C15_true_iff_written_on_the_line.
 
 (** non-vacuity: "-f" with F set in the environment and "x" on the line: the flag of the option
     stays false (environment), the flag of the argument is raised (command line) *)
